@@ -836,3 +836,45 @@ pub fn bulk_two_clients(n: usize, seed: u64, cov: &mut Cov) -> Option<Found> {
     }
     None
 }
+
+/// C13: the largest bodies the API accepts (100 MiB and a few bytes less) through the library on the
+/// in-memory backend, on SQLite, and on SQLite re-opened before every request: same outcomes.
+pub fn largest_body_lockstep(cov: &mut Cov) -> Option<Found> {
+    const MAX: usize = 100 * 1024 * 1024;
+    for len in [MAX, MAX - 64] {
+        let mut outcomes: Vec<(String, Vec<String>)> = vec![];
+        for (name, kind, reopen) in [("mem/lib", Kind::MEM_LIB, false), ("sqlite/lib", Kind::SQL_LIB, false), ("sqlite/lib re-opened before every request", Kind::SQL_LIB, true)] {
+            let Ok(mut subj) = Subject::new(kind, Config::default()) else { continue };
+            let c = Uuid::from_u128(0xC13_0000 + len as u128);
+            let data = PaySpec::new(len, 0, len as u64).bytes();
+            let mut o = vec![];
+            let mut step = |subj: &mut Subject, req: Req| -> Resp {
+                if reopen {
+                    let _ = subj.reopen();
+                }
+                subj.exec(c, &req)
+            };
+            let r1 = step(&mut subj, Req::AddVersion { parent: Uuid::nil(), data: data.clone() });
+            let vid = if let Resp::AddOk { vid, .. } = &r1 { *vid } else { Uuid::nil() };
+            o.push(format!("AddVersion: {}", r1.outcome()));
+            let r2 = step(&mut subj, Req::GetChild { parent: Uuid::nil() });
+            o.push(format!("GetChildVersion: {}", match &r2 { Resp::Found { data: d, .. } => format!("found, {} bytes, equal={}", d.len(), *d == data), x => x.short() }));
+            let r3 = step(&mut subj, Req::AddSnapshot { vid, data: data.clone() });
+            o.push(format!("AddSnapshot: {}", r3.outcome()));
+            let r4 = step(&mut subj, Req::GetSnapshot);
+            o.push(format!("GetSnapshot: {}", match &r4 { Resp::Snap { data: d, .. } => format!("snapshot, {} bytes, equal={}", d.len(), *d == data), x => x.short() }));
+            cov.evaluations += 4;
+            outcomes.push((name.to_string(), o));
+        }
+        cov.hit(format!("largest-body-lockstep:{}", if len == MAX { "limit" } else { "limit-64" }));
+        if let Some((n, o)) = outcomes.iter().skip(1).find(|(_, o)| *o != outcomes[0].1) {
+            return Some(Found {
+                property: "C13".into(),
+                signature: "C13:largest body".into(),
+                msg: format!("with bodies of {len} bytes (the API accepts up to 100 MiB) the same four requests give {:?} on {} but {:?} on {n}", outcomes[0].1, outcomes[0].0, o),
+                replay: json!({"origin": "largest-body", "case": 0}),
+            });
+        }
+    }
+    None
+}
